@@ -7,6 +7,12 @@ joined by `,`; `none` = no delivery at all.
       (`end=1`: `noMoreData()` is called after the last delivery unless a delivery raised; a raise in it is `@end`;
        identity only — `end=2`: `noMoreData()` twice, `end=3`: `noMoreData()` then `dataReceived(b"x")`;
        the events of the two calls are joined by `+`: `<Class>@end|-` `+` `<Class>@end2|<Class>@post|-`)
+  `C22 chunkedp <end> <deliveries>`             → the `chunked` line + ` fprobe=<r>;<r>…|none dprobe=_DataLoss|none`:
+      both callbacks call `noMoreData()`; `fprobe` = its outcomes (`ok` or the class raised) in the `finishCallback`
+      calls, `dprobe` = the set of its outcomes in the `dataCallback` calls
+  `C22 identityp <n|none> <end> <deliveries>`   → the `identity` line + ` cprobe=<r>;<r>|none`: `dataCallback` calls
+      `noMoreData()` when it holds all `n` bytes, `finishCallback` calls it too
+  `C22 fromchunk <b>`                           → `data=<b> rest=<b>` or `!raised ValueError`
   `C22 hexint <b>` / `C22 decint <b>`           → decimal value or `!raised ValueError`
   `C22 tochunk <b>`                             → `b"".join(toChunk(b))`
 -/
@@ -84,6 +90,60 @@ def runIdent (s : Ident) (i : Nat) : List Bytes → Nat → String
     | .ok s' => runIdent s' (i + 1) cs m
     | .error (e, s') => render s'.data s'.fin (errName e ++ "@" ++ toString i)
 
+/-- outcome of a `noMoreData()` made from inside a callback -/
+def probeName : Except (Err × Dec) Dec → String
+  | .ok _ => "ok"
+  | .error (e, _) => errName e
+
+/-- `dataCallback` runs in `_dataReceived_BODY` after the state has become CRLF or stayed BODY
+    (`TwistedProps.C22.reentrant_noMoreData_in_dataCallback`, `data_changes_only_in_body`): every probe made there
+    sees that decoder -/
+def dprobe (s : Dec) : String :=
+  if s.data.isEmpty then "none" else probeName (noMoreData { s with state := .crlf })
+
+def renderP (s : Dec) (exc : String) (fp : List String) : String :=
+  render s.data s.fin exc ++ " fprobe=" ++ (if fp.isEmpty then "none" else ";".intercalate fp) ++ " dprobe=" ++ dprobe s
+
+/-- as `runChunked`; when a delivery made `finishCallback` fire, the probe is `noMoreData` on the decoder as that
+    handler left it (state and buffer are final before the callback is called) -/
+def runChunkedP (s : Dec) (i : Nat) (fp : List String) : List Bytes → Bool → String
+  | [], doEnd =>
+    if doEnd then
+      match noMoreData s with
+      | .ok s' => renderP s' "-" fp
+      | .error (e, s') => renderP s' (errName e ++ "@end") fp
+    else renderP s "-" fp
+  | d :: cs, doEnd =>
+    match dataReceived s d with
+    | .ok s' =>
+      runChunkedP s' (i + 1) (if s'.fin.length > s.fin.length then fp ++ [probeName (noMoreData s')] else fp) cs doEnd
+    | .error (e, s') => renderP s' (errName e ++ "@" ++ toString i) fp
+
+def identProbeName : Except (Err × Ident) Ident → String
+  | .ok _ => "ok"
+  | .error (e, _) => errName e
+
+def identAfter : Except (Err × Ident) Ident → Ident
+  | .ok s => s
+  | .error (_, s) => s
+
+/-- the probes of `identityp`: in the delivery that completes the body, `noMoreData()` from `dataCallback` and
+    again from `finishCallback`, both on the decoder as `dataReceived` left it before calling them -/
+def identProbes (s : Ident) : List Bytes → List String
+  | [] => []
+  | d :: cs =>
+    match Ident.dataReceived s d with
+    | .error _ => []
+    | .ok s' =>
+      if s'.fin.length > s.fin.length then
+        let r1 := Ident.noMoreData s'
+        let r2 := Ident.noMoreData (identAfter r1)
+        [identProbeName r1, identProbeName r2] ++ identProbes (identAfter r2) cs
+      else identProbes s' cs
+
+def renderCP (base : String) (ps : List String) : String :=
+  base ++ " cprobe=" ++ (if ps.isEmpty then "none" else ";".intercalate ps)
+
 def decEnd (s : String) : Option Bool :=
   if s = "1" then some true else if s = "0" then some false else none
 
@@ -104,6 +164,24 @@ def handle (args : List String) : String :=
         | some n => runIdent (Ident.init (some n)) 0 ds e
         | none => "bad-op"
     | _, _ => "bad-op"
+  | ["chunkedp", e, ds] =>
+    match decEnd e, decDeliveries ds with
+    | some e, some ds => runChunkedP init 0 [] ds e
+    | _, _ => "bad-op"
+  | ["identityp", n, e, ds] =>
+    match decEndI e, decDeliveries ds with
+    | some e, some ds =>
+      if n = "none" then renderCP (runIdent (Ident.init none) 0 ds e) (identProbes (Ident.init none) ds)
+      else match n.toNat? with
+        | some n => renderCP (runIdent (Ident.init (some n)) 0 ds e) (identProbes (Ident.init (some n)) ds)
+        | none => "bad-op"
+    | _, _ => "bad-op"
+  | ["fromchunk", b] =>
+    match decHex b with
+    | some b => match fromChunk b with
+      | some (d, r) => "data=" ++ encHex d ++ " rest=" ++ encHex r
+      | none => "!raised ValueError"
+    | none => "bad-op"
   | ["hexint", b] =>
     match decHex b with
     | some b => match hexint b with
